@@ -252,7 +252,18 @@ func stress(r *rng, seconds float64, goroutines int) string {
 	st := memory.NewStore()
 	uni := concUniverse()
 	names := []string{"?g", "?h", "?i"}
-	st.NewGraph(ctx, names[0])
+	g0, _ := st.NewGraph(ctx, names[0])
+	// temporal triples for the statements whose predicate is bounded by bindings (one window per row, rows in parallel)
+	{
+		var tt []*triple.Triple
+		for i, s := range []string{"a", "b", "c", "d"} {
+			at := time.Date(2016+i, 1, 1, 0, 0, 0, 0, time.UTC)
+			t, _ := triple.New(mustNode("/u", s), mustTmp("q", at), triple.NewNodeObject(mustNode("/u", "x")))
+			u, _ := triple.New(mustNode("/u", s), mustTmp("r", at.Add(time.Hour)), triple.NewNodeObject(mustNode("/u", "y")))
+			tt = append(tt, t, u)
+		}
+		g0.AddTriples(ctx, tt)
+	}
 	shared := &storage.LookupOptions{LatestAnchor: true}
 	sharedPage := &storage.LookupOptions{MaxElements: 2, Offset: 1}
 	deadline := time.Now().Add(time.Duration(seconds * float64(time.Second)))
@@ -324,6 +335,8 @@ func stress(r *rng, seconds float64, goroutines int) string {
 		`delete data from ?g {/u<a> "p"@[] /u<x>};`,
 		`construct {?s "q"@[] ?o} into ?h from ?g where {?s "p"@[] ?o};`,
 		`show graphs;`,
+		`select ?s, ?t, ?o from ?g where {?s "q"@[?t] ?x . ?s "r"@[?t,] ?o};`,
+		`select ?s, ?u from ?g where {?s "q"@[?t] ?x . ?s "r"@[?u] ?y . ?z "q"@[?t,?u] ?w};`,
 	}
 	for gi := 0; gi < 4; gi++ {
 		wg.Add(1)
